@@ -1,7 +1,4 @@
 // ================= U08 prelude: TRUSTED stand-ins for revm context traits =================
-pub const KECCAK_EMPTY: B256 = B256(0xc5d2);
-impl AccountInfo { pub open spec fn dflt() -> AccountInfo { AccountInfo { balance: U256::ZERO, nonce: 0, code_hash: KECCAK_EMPTY, code: Some(Bytecode(0)) } } }
-impl Default for AccountInfo { fn default() -> (r: Self) ensures r == AccountInfo::dflt() { AccountInfo { balance: U256::ZERO, nonce: 0, code_hash: KECCAK_EMPTY, code: Some(Bytecode(0)) } } }
 #[derive(PartialEq, Eq, Structural, Clone, Copy)] pub struct CfgSpec(pub SpecId);
 impl CfgSpec { pub fn clone(&self) -> (r: Self) ensures r == *self { *self } }
 impl From<CfgSpec> for SpecId { fn from(x: CfgSpec) -> (r: SpecId) { x.0 } }
